@@ -101,6 +101,21 @@ def sx(n):
         return f"(let {a[0]} {sx(a[1])} {sx(a[2])})"
     if k == "lett":
         return f"(lett ({' '.join(a[0])}) {sx(a[1])} {sx(a[2])})"
+    if k == "rec":       # record literal: the model sees the tuple of its fields in sorted field order
+        return "(tup " + " ".join(sx(e) for _, e in sorted(a[0], key=lambda fe: fe[0])) + ")"
+    if k == "field":     # r.f  = projection at the field's sorted index
+        return f"(proj {sx(a[0])} {a[2]})"
+    if k == "letr":      # let r[: T] = e
+        return f"(let {a[0]} {sx(a[2])} {sx(a[3])})"
+    if k == "setf":      # r.f = e ; rest   ==  r = (r.0, …, e, …) ; rest
+        comps = [sx(a[4]) if i == a[2] else f"(proj (var {a[0]}) {i})" for i in range(a[3])]
+        return f"(set {a[0]} (tup {' '.join(comps)}) {sx(a[5])})"
+    if k == "recupd":    # { r <- f = e }
+        comps = [sx(a[4]) if i == a[2] else f"(proj (var {a[0]}) {i})" for i in range(a[3])]
+        return "(tup " + " ".join(comps) + ")"
+    if k == "letrp":     # let {f = x, …} = e ; body  == lett (x… in sorted field order) e body
+        names = [v for _, v in sorted(a[0], key=lambda fv: fv[0])]
+        return f"(lett ({' '.join(names)}) {sx(a[1])} {sx(a[2])})"
     if k == "letp":
         # nested tuple pattern, desugared for the model into flat destructurings through temporaries
         return sx(desugar_pattern(a[0], a[1], a[2]))
@@ -198,7 +213,7 @@ def block(n, kn, ind):
             lines.append(pad + c if c else "")
         tail = _cmt(kn, key + "t")
         lines.append(line + ((" " + tail) if tail else ""))
-    while n.kind in ("let", "lett", "set", "letp"):
+    while n.kind in ("let", "lett", "set", "letp", "letr", "setf", "letrp"):
         if n.kind == "let":
             add(f"{pad}let {kn.name(n.a[0])} = {src(n.a[1], kn, ind)}", n.a[0])
             n = n.a[2]
@@ -207,6 +222,16 @@ def block(n, kn, ind):
             n = n.a[2]
         elif n.kind == "letp":
             add(f"{pad}let {pat_src(n.a[0], kn)} = {src(n.a[1], kn, ind)}", pat_names(n.a[0])[0])
+            n = n.a[2]
+        elif n.kind == "letr":
+            ann = "" if n.a[1] is None else ": {" + ", ".join(f"{f}: float" for f in n.a[1]) + "}"
+            add(f"{pad}let {kn.name(n.a[0])}{ann} = {src(n.a[2], kn, ind)}", n.a[0])
+            n = n.a[3]
+        elif n.kind == "setf":
+            add(f"{pad}{kn.name(n.a[0])}.{n.a[1]} = {src(n.a[4], kn, ind)}", n.a[0] + "sf")
+            n = n.a[5]
+        elif n.kind == "letrp":
+            add(f"{pad}let {{{', '.join(f'{f} = {kn.name(v)}' for f, v in n.a[0])}}} = {src(n.a[1], kn, ind)}", n.a[0][0][1])
             n = n.a[2]
         else:
             add(f"{pad}{kn.name(n.a[0])} = {src(n.a[1], kn, ind)}", n.a[0] + "s")
@@ -237,8 +262,14 @@ def src(n, kn=DEFAULT, ind=0, prec=0):
         return f"({s})" if (p < prec or kn.parens or prec > 0) else s
     if k == "if":
         return f"if ({src(a[0], kn, ind)}) {braces(a[1], kn, ind)} else {braces(a[2], kn, ind)}"
-    if k in ("let", "lett", "set", "letp"):
+    if k in ("let", "lett", "set", "letp", "letr", "setf", "letrp"):
         return "(" + braces(n, kn, ind) + ")"
+    if k == "rec":
+        return "{" + ", ".join(f"{f} = {src(e, kn, ind)}" for f, e in a[0]) + "}"
+    if k == "field":
+        return f"{src(a[0], kn, ind, 9)}.{a[1]}"
+    if k == "recupd":
+        return f"{{ {kn.name(a[0])} <- {a[1]} = {src(a[4], kn, ind)} }}"
     if k == "tup":
         if kn.nl:
             pad = "  " * (ind + 2)
@@ -347,6 +378,7 @@ class Gen:
         vars_f = [v for v in ctx["vars"] if v[1] == F]
         vars_t = [v for v in ctx["vars"] if is_tuple(v[1])]
         vars_fn = [v for v in ctx["vars"] if isinstance(v[1], tuple) and v[1][0] == "fn"]
+        vars_r = [v for v in ctx["vars"] if isinstance(v[1], tuple) and v[1][0] == "r"]
         notime = ctx.get("no_time")
         if d <= 0:
             opts = [("lit", 3), ("now", 0 if notime else 1)]
@@ -354,6 +386,8 @@ class Gen:
                 opts.append(("var", 7))
             if vars_t:
                 opts.append(("proj", 2))
+            if vars_r:
+                opts.append(("field", 3))
         else:
             opts = [("lit", 2), ("bin", 10), ("un", 2), ("now", 0 if notime else 1),
                     ("sr", 1 if self.p.get("sr", True) and not notime else 0)]
@@ -361,6 +395,8 @@ class Gen:
                 opts.append(("var", 6))
             if vars_t:
                 opts.append(("proj", 2))
+            if vars_r:
+                opts.append(("field", 3))
             # tuple-returning functions are called only as `let t = f(..)` (simple_t); projections apply to variables
             fs = [f for f in self.fns if f.ret == F and (ctx["allow_state"] or not f.stateful)]
             if fs:
@@ -388,6 +424,11 @@ class Gen:
             return Node("bin", op, self.simple(d - 1, ctx), self.simple(d - 1, ctx))
         if k == "un":
             return Node("un", r.pick(["neg", "sqrt", "abs"]), self.simple(d - 1, ctx))
+        if k == "field":
+            v = r.pick(vars_r)
+            fs = list(v[1][1])
+            f = r.pick(fs)
+            return Node("field", Node("var", v[0]), f, fs.index(f))
         if k == "proj":
             v = r.pick(vars_t)
             idx = [i for i, t in enumerate(v[1][1:]) if t == F]
@@ -466,11 +507,48 @@ class Gen:
             mut = [v for v in ctx["vars"] if v[1] == F and v[2]]
             if self.p.get("assign", True) and mut:
                 opts.append(("set", 2))
+            recs = [v for v in ctx["vars"] if isinstance(v[1], tuple) and v[1][0] == "r"]
+            if self.p.get("records", self.p.get("tuples", True)):
+                opts.append(("letrec", 2))
+                if recs:
+                    opts += [("setf", 2), ("recupd", 1), ("letrp", 1)]
             tsf = [f for f in self.fns if getattr(f, "tuple_self", False)] if ctx["allow_state"] else []
             if tsf:
                 opts.append(("letpcall", 4))
             k = r.weighted([o for o in opts if o[1] > 0])
             self.bump("s_" + k)
+            if k == "letrec":
+                fields = r.pick([["x", "y"], ["a", "b", "c"], ["freq", "amp"], ["p", "q", "r"], ["y", "x"], ["zz", "k", "m"]])
+                order = list(fields)
+                lit_order = list(fields)
+                if r.chance(1, 2):
+                    lit_order = sorted(fields, key=lambda f: r.next())      # literal written in any field order
+                ann = None
+                if r.chance(1, 2):
+                    ann = sorted(fields, key=lambda f: r.next())            # annotation in any (e.g. non-alphabetical) order
+                x = self.fresh("r")
+                stmts.append(("letr", x, ann, Node("rec", [(f, self.simple(d, ctx)) for f in lit_order])))
+                ctx["vars"].append((x, ("r", tuple(sorted(fields))), True))
+                continue
+            if k in ("setf", "recupd", "letrp"):
+                v = r.pick(recs)
+                fs = list(v[1][1])
+                if k == "letrp":
+                    binds = [(f, self.fresh()) for f in sorted(fs, key=lambda f: r.next())]
+                    stmts.append(("letrp", binds, Node("var", v[0])))
+                    ctx["vars"] += [(b, F, False) for _, b in binds]
+                    continue
+                f = r.pick(fs)
+                idx = fs.index(f)
+                if k == "setf":
+                    if not v[2]:
+                        continue
+                    stmts.append(("setf", v[0], f, idx, len(fs), self.simple(d, ctx)))
+                else:
+                    q = self.fresh("r")
+                    stmts.append(("let", q, Node("recupd", v[0], f, idx, len(fs), self.simple(d, ctx))))
+                    ctx["vars"].append((q, v[1], True))
+                continue
             if k == "letpcall":
                 f = r.pick(tsf)
                 pat = self.fresh_pattern(f.ret)
@@ -526,6 +604,12 @@ class Gen:
                 tail = Node("lett", st[1], st[2], tail)
             elif st[0] == "letp":
                 tail = Node("letp", st[1], st[2], tail)
+            elif st[0] == "letr":
+                tail = Node("letr", st[1], st[2], st[3], tail)
+            elif st[0] == "setf":
+                tail = Node("setf", st[1], st[2], st[3], st[4], st[5], tail)
+            elif st[0] == "letrp":
+                tail = Node("letrp", st[1], st[2], tail)
             else:
                 tail = Node("set", st[1], st[2], tail)
         return tail
@@ -541,8 +625,10 @@ class Gen:
     def no_bare_proj_tail(self, n):
         """known finding F20: a then-arm whose value is a bare tuple projection makes the WASM backend yield 0 when the
         else-arm is taken; the profile keeps such tails arithmetic"""
-        if n.kind in ("let", "lett", "set", "letp"):
+        if n.kind in ("let", "lett", "set", "letp", "letr", "setf", "letrp"):
             return Node(n.kind, *(list(n.a[:-1]) + [self.no_bare_proj_tail(n.a[-1])]))
+        if n.kind == "field":
+            return Node("bin", "add", n, Node("lit", "0.0"))
         if n.kind == "if":
             return Node("if", n.a[0], self.no_bare_proj_tail(n.a[1]), self.no_bare_proj_tail(n.a[2]))
         if n.kind == "proj":
@@ -586,7 +672,7 @@ class Gen:
         return Fn(name, ps, [F] * nparams, ret, body, used_self[0], self.site > s0 or used_self[0])
 
     def arith_tail(self, n):
-        if n.kind in ("let", "lett", "set", "letp"):
+        if n.kind in ("let", "lett", "set", "letp", "letr", "setf", "letrp"):
             return Node(n.kind, *(list(n.a[:-1]) + [self.arith_tail(n.a[-1])]))
         if n.kind == "if":
             return Node("if", n.a[0], self.arith_tail(n.a[1]), self.arith_tail(n.a[2]))
@@ -619,7 +705,8 @@ PROFILES = {
     # the space where C02 must hold on the pinned tree (known findings steered away from)
     "core": dict(avoid_f2=True, avoid_f3=True),
     # scalar programs with state: the fragment on which VM, WASM and the reference semantics agree on the pinned tree
-    "scalar": dict(avoid_f2=True, avoid_f3=True, lambdas=False, tuples=False),
+    "scalar": dict(avoid_f2=True, avoid_f3=True, lambdas=False, tuples=False, records=False),
+    "records": dict(avoid_f2=True, avoid_f3=True, lambdas=False, tuples=False, records=True),
     "scalar_tself": dict(avoid_f2=True, avoid_f3=True, lambdas=False, tuples=False, tuple_self=True),
     "scalar_deep": dict(avoid_f2=True, avoid_f3=True, lambdas=False, tuples=False, depth=5, max_fns=5),
     "closure_assign": dict(avoid_f2=True, avoid_f3=True, closure_assign=True),
@@ -633,10 +720,43 @@ PROFILES = {
 }
 
 
+def est_cost(p):
+    """static estimate of the number of AST nodes one dsp call evaluates (calls and closure applications multiply):
+    keeps generated programs cheap enough for the reference evaluator"""
+    fcost = {}
+
+    def cost(n, lam):
+        k = n.kind
+        c = 1
+        if k == "call":
+            c += fcost.get(n.a[0], 1)
+        if k == "app" and n.a[0].kind == "var":
+            c += lam.get(n.a[0].a[0], 1)
+        if k == "let" and n.a[1].kind == "lam":
+            body_cost = cost(n.a[1].a[1], lam)
+            lam = dict(lam)
+            lam[n.a[0]] = body_cost
+            return c + cost(n.a[2], lam)
+        if k == "lam":
+            return c            # creating a closure is cheap; its body is paid at application
+        for _, ch in children(n):
+            c += cost(ch, lam)
+        return min(c, 10 ** 12)
+    for f in p.fns:
+        fcost[f.name] = cost(f.body, {})
+    return cost(p.dsp.body, {})
+
+
+MAX_COST = 40000
+
+
 def make_case(seed, idx, profile="core", times=24):
-    r = Rng((seed << 20) ^ idx ^ (hash_name(profile) << 40))
-    g = Gen(r, dict(PROFILES[profile]))
-    p = g.gen_prog()
+    for attempt in range(50):
+        r = Rng((seed << 20) ^ idx ^ (hash_name(profile) << 40) ^ (attempt << 52))
+        g = Gen(r, dict(PROFILES[profile]))
+        p = g.gen_prog()
+        if est_cost(p) <= MAX_COST:
+            break
     nin = len(p.dsp.params)
     inputs = []
     for t in range(times):
@@ -673,6 +793,8 @@ if __name__ == "__main__":
 def children(n):
     """(index path element, child) pairs of a node"""
     out = []
+    if n.kind == "rec":
+        return [((0, j), e) for j, (_, e) in enumerate(n.a[0])]
     for i, x in enumerate(n.a):
         if isinstance(x, Node):
             out.append(((i,), x))
@@ -684,6 +806,10 @@ def children(n):
 
 def replace_child(n, key, new):
     a = list(n.a)
+    if n.kind == "rec":
+        l = list(a[0])
+        l[key[1]] = (l[key[1]][0], new)
+        return Node("rec", l)
     if len(key) == 1:
         a[key[0]] = new
     else:
@@ -779,6 +905,10 @@ def user_names(p):
             names.extend(n.a[0])
         elif n.kind == "letp":
             names.extend(pat_names(n.a[0]))
+        elif n.kind == "letr":
+            names.append(n.a[0])
+        elif n.kind == "letrp":
+            names.extend(v for _, v in n.a[0])
         elif n.kind == "lam":
             names.extend(n.a[0])
         for _, ch in children(n):
